@@ -251,9 +251,12 @@ func c16(w *core.World, r *core.Report) {
 	// ---- EXPIRY-IDENTITY
 	r.Rule("EXPIRY-IDENTITY", 1, "the timer-triggered rollback decides by OBJECT identity, not by id: in the TransactionManager method reached from the timer callback, the rollback effect is guarded by an equality test between the transaction slot and the *Transaction the expired timer belongs to. A look-up by id would accept a later transaction that re-uses the id.")
 	{
-		tcb := w.Func("pkg/datastore/types", "Transaction", "rollback")
-		if tcb != nil {
-			reach := w.CG().Reachable(func(e core.Edge) bool { return e.Kind == "ref" || e.Kind == "dynamic-sig" }, tcb)
+		tcbs := timerCallbacks(w)
+		if len(tcbs) == 0 {
+			w.NoteUnresolved("timer callback (function handed to types.NewTransactionCancelTimer)")
+		}
+		if len(tcbs) > 0 {
+			reach := w.CG().Reachable(func(e core.Edge) bool { return e.Kind == "ref" || e.Kind == "dynamic-sig" }, tcbs...)
 			for _, f := range w.RepoFns {
 				if !reach[f] || !inTypes(f) || f.Signature.Recv() == nil || core.TypeKey(f.Signature.Recv().Type()) != kTM {
 					continue
